@@ -305,6 +305,8 @@ def run(pid, tier, seed):
         log("C05: %d e2e pairs in %.1fs" % (len(runs), time.time() - t0))
         samples = []
         nontriv = 0
+        # (a pair whose plain form prints nothing compares nothing: counted, and kept a small share)
+        silent_pairs = sum(1 for (label, cplain, cform), (a, b) in zip(cases, runs) if not a.out and any(len(v) > 40 for v in cplain.files.values()))
         for (label, cplain, cform), (a, b) in zip(cases, runs):
             multi = sum(len(v) for v in cplain.files.values() if v) > 65536
             if multi:
@@ -389,7 +391,7 @@ def run(pid, tier, seed):
                                                                            "stderr": b.err[-200:].decode(errors="replace")})
                 os.remove(os.path.join(sdir, fname))
         rep.coverage = {"states": states, "transitions": trans, "traces_validated_against_impl": traces_ok,
-                        "evaluations": nblocks + len(runs) + len(shipped), "distinct_nontrivial": nontriv + len([o for o in outs if len(meta[o["id"]][0]) > meta[o["id"]][1]]),
+                        "evaluations": nblocks + len(runs) + len(shipped), "e2e_pairs": len(runs), "e2e_pairs_plain_prints_nothing": silent_pairs, "distinct_nontrivial": nontriv + len([o for o in outs if len(meta[o["id"]][0]) > meta[o["id"]][1]]),
                         "rule": "in-process: one evaluation = one read_block call on a real container compared with the plain slice; "
                                 "e2e: one (plain, stored form) pair of runs; non-trivial = content larger than one block",
                         "samples": samples or [{"note": "see tlc_configs"}], "tlc_configs": tl, "block_calls": nblocks,
